@@ -947,6 +947,13 @@ def falsifier_stage(ctx):
                                 reorder=(i % 2 == 1)))
     for i in range(ctx.n(6, 30)):      # jump operators with non-diagonal L^dagger L, 2 and 3 levels, forced jumps
         det.append(gen_det_case(ctx.rng, "offdiag", [2, 3, 2][i % 3], jump=True, d=[2, 3][i % 2]))
+    # history: runs in one process that share the drive and differ in the noise (A, B, A again): every one of them is
+    # compared with its own dense reference, so a dependence on what was emulated before shows up
+    for i in range(ctx.n(2, 10)):
+        a = gen_det_case(ctx.rng, kinds2[i % 5], [2, 3][i % 2], jump=(i % 2 == 0))
+        b = dict(a, noise_kind=kinds2[(i + 2) % 5], noise=gen_noise_spec(ctx.rng, kinds2[(i + 2) % 5], 2),
+                 history="same drive as the previous scripted run, different noise")
+        det += [a, b, dict(a, history="same drive and noise as two runs before")]
     for i in range(ctx.n(2, 10)):      # reordering without bad atoms
         det.append(gen_det_case(ctx.rng, kinds2[i % 5], [3, 4][i % 2], jump=True, reorder=True))
     if ctx.thorough():
@@ -1018,7 +1025,7 @@ def run(ctx):
                 "relaxation, dephasing, depolarizing, effective, leakage (3 levels), mixed noise, 2-4 atoms, and 3-5 atoms "
                 "with 1-2 badly prepared atoms (state_prep_error > 0) with and without qubit reordering, against a "
                 "dense H_eff evolution of the well-prepared atoms; the norm of the state handed to the observables is "
-                "probed at EVERY fill. (c') ONE public MPSBackend(seq).run() with n_trajectories = K (real pulser "
+                "probed at EVERY fill; triples of scripted runs sharing the drive and differing in the noise (history).  (c') ONE public MPSBackend(seq).run() with n_trajectories = K (real pulser "
                 "sequence + NoiseModel, 2 atoms): K emulations, K + #jumps threshold draws, averaged occupations "
                 "against the dense Lindblad solution. (d) statistical: trajectory averages (python random seeded from ctx.rng) of "
                 "occupations at t = T/2 and T against the dense Lindblad reference; acceptance by the smaller of "
